@@ -11,8 +11,9 @@ R3  seeded random configurations / epoch changes / queries with numbers up to 2^
 Known-deviation input classes ("legacy", "builtinAboveLimit") are judged by the InvK_ invariants in separate passes.
 Supplementary: main-net scale numbers (beyond TLC's 32-bit integers) with the inequalities evaluated in Go.
 """
-import json
 import os
+import re
+import subprocess
 import vlib
 
 PROPS = ["C21", "C22"]
@@ -140,8 +141,32 @@ def validate(ctx, sd, trace, n_events, what):
     st, line = vlib.validate_trace(ctx, sd, "Trace_Fees", "strict.cfg", trace, n_events, prop + "/trace",
                                    divergence_is_violation=False, what=what, obs_cfg="obs.cfg")
     for cls, invs in sorted(KNOWN[prop].items()):
-        class_pass(ctx, sd, cls, invs, n_events, what)
+        for inv in invs:        # one pass per invariant: TLC stops at the first violation, a known one must not hide another
+            class_pass(ctx, sd, cls + "_" + inv, [inv], n_events, what)
     return st
+
+
+def apalache(ctx, sd, lemmas):
+    """discharge the inequalities of FeesLemmas.tla for unbounded Int (--length=0). A stall is only noted; a violated
+    lemma is a model-level counterexample (never a verdict about the code) -> the check reports itself broken."""
+    res = {}
+    out = os.path.join(ctx.scratch, "apalache-out")
+    for inv in ["VacuityProbe"] + lemmas:
+        try:
+            p = subprocess.run(["timeout", "-s", "KILL", "300", "apalache-mc", "check", "--length=0", "--inv=" + inv,
+                                "--out-dir=" + out, "FeesLemmas.tla"], cwd=sd, stdout=subprocess.PIPE,
+                               stderr=subprocess.STDOUT, universal_newlines=True)
+            m = re.search(r"The outcome is: (\w+)", p.stdout)
+            res[inv] = m.group(1) if m else ("timeout" if p.returncode in (137, 124) else "unknown(rc=%d)" % p.returncode)
+        except OSError as e:
+            res[inv] = "not-run(%s)" % e
+    if res.get("VacuityProbe") == "NoError":
+        ctx.broken.append("Apalache: the vacuity probe of FeesLemmas.tla holds, i.e. Init is unsatisfiable where it matters")
+    for inv in lemmas:
+        if res.get(inv) == "Error":
+            ctx.broken.append("Apalache: lemma %s of FeesLemmas.tla has a counterexample over unbounded Int (model-level)" % inv)
+    ctx.cov(apalache_unbounded_int_lemmas={k: v for k, v in res.items() if k != "VacuityProbe"},
+            apalache_vacuity_probe_violated=(res.get("VacuityProbe") == "Error"))
 
 
 def run(ctx):
@@ -161,11 +186,12 @@ def run(ctx):
     invs = CORE[prop] + [i for v in KNOWN[prop].values() for i in v]
     # ---- R1: intended design, exhaustive
     write_cfg(sd, "r1.cfg", prop, ctx.tier, rest="INVARIANTS TypeOK " + " ".join(invs))
-    r1 = ctx.tlc(sd, "MC_Fees", "r1.cfg", timeout=1500, coverage=not q)
+    dev = bool(os.environ.get("VERIF_DEV_SKIP_R1"))     # mutation-testing aid only: skips the code-independent R1 runs
+    r1 = vlib.TlcResult() if dev else ctx.tlc(sd, "MC_Fees", "r1.cfg", timeout=1500, coverage=not q)
     if not q and r1.ok and r1.coverage_zero:
         ctx.broken.append("vacuity guard: actions/expressions never evaluated in R1: %s" % sorted(set(r1.coverage_zero))[:10])
     # ---- R1 with the code's named deviations: TLC must find the counterexamples
-    if KNOWN[prop]:
+    if KNOWN[prop] and not dev:
         found = []
         for cls, kinvs in sorted(KNOWN[prop].items()):
             write_cfg(sd, "r1d.cfg", prop, "quick", defects=ALL_DEFECTS, rest="INVARIANTS " + " ".join(kinvs))
@@ -214,6 +240,9 @@ def run(ctx):
     # ---- supplementary: main-net scale numbers, the same inequalities evaluated in Go (big.Int)
     rs = ctx.vh(exe, ["real", ctx.seed, 60 if q else 600], timeout=900)
     ctx.cov(supplementary_real_scale_cases=int(rs.stats.get("real_scale_cases", 0)))
+    # ---- the pure inequalities for unbounded integers (Apalache, typed copy FeesLemmas.tla), thorough tier only
+    if not q:
+        apalache(ctx, sd, {"C21": ["FeeBounds", "GasUsedMonotone", "GasUsedBelowFull", "RefundGasUsed"], "C22": ["Affordable"]}[prop])
     # ---- binding self-test
     if not q and st == "accepted":
         def corrupt_functional(evs):
